@@ -383,10 +383,10 @@ impl Check for C08 {
         ]
     }
     fn cases(&self, tier: Tier) -> u64 {
-        tier.pick(2_400, 40_000)
+        tier.pick(9_600, 40_000)
     }
     fn min_nontrivial(&self, tier: Tier) -> u64 {
-        tier.pick(800, 10_000)
+        tier.pick(3_000, 10_000)
     }
     fn required_counters(&self, _tier: Tier) -> Vec<&'static str> {
         vec!["timeouts-observed", "progress-phases", "batch-steps", "single-key-ads", "multi-key-ads", "driver:advertisements", "driver:refusals-when-full", "driver:fetch-events-after-full", "driver:periodic-lists-with-one-missing-record", "back-pressure-traces", "back-pressure:reports-owed"]
